@@ -557,9 +557,15 @@ class McmcSim:
             expected = "reject"
         elif rec.u is not None and rec.alpha is not None:
             la_ref = rec.lp_s2 - rec.lp_s + rec.hr_true
-            if la_ref >= 1e-9:
+            # how far the coin is from the decision boundary, in log space, against what the
+            # reference itself can resolve (the GMRF reference is an iterative re-implementation)
+            resolution = (1e-6 if kind.startswith("GMRF") else 1e-11) + 1e-13 * abs(la_ref)
+            margin = abs(la_ref - math.log(rec.u)) if rec.u > 0 else float("inf")
+            if la_ref >= 1e-9 + resolution:
                 expected = "accept"  # alpha is robustly one and u < 1 always
-            elif abs(rec.alpha - rec.u) <= 1e-12 * max(rec.alpha, 1e-300):
+            elif la_ref >= -resolution and rec.u > 0:
+                self.stats["coin_too_close"] += 1  # alpha is one or indistinguishable from it
+            elif margin <= resolution:
                 self.stats["coin_too_close"] += 1
             else:
                 expected = "accept" if rec.alpha > rec.u else "reject"
